@@ -16,7 +16,7 @@ from ..common import Ctx, tlc, tlc_ok, pmap, mc_module, workdir, rmtree
 from .. import ptrace, corpus
 
 ALL_KINDS = {"typedef", "obj", "fdecl", "enum", "enum2", "enumS", "member", "tag", "label", "proto", "forinit",
-             "probeI", "probeS", "func", "func0", "funcN", "krfunc", "open"}
+             "probeI", "probeS", "func", "func0", "funcN", "krfunc", "open", "noise"}
 DEV_ITEMS = {"forinit", "krfunc", "enum2", "enumS", "enum", "label"}
 
 
@@ -39,6 +39,20 @@ SPELL = {
     "tag": ["struct %n { int x; };", "union %n { int x; };", "enum %n { ETG%i };"],
     "open": ["{", "{", "if (xx) {", "while (xx) {", "do {", "switch (xx) {"],
 }
+
+
+# items without effect on any scope (Scope.Noise): (spelling at file scope, spelling inside a function)
+NOISE = [
+    ("int zn%i = sizeof((union { float f; int i; }){ 0 }.i);", "xx = (union { float f; int i; }){ 0 }.i;"),
+    ("int zn%i = sizeof(struct { int a; });", "xx = sizeof(struct { int a; });"),
+    ("void *zn%i = (struct { int a; } *)0;", "xx = (struct { int a; } *)0 == 0;"),
+    ("int zn%i[] = { 1, { 2 } };", "int zn%i[] = { 1, { 2 } };"),
+    ("enum { ZE%i };", "enum { ZE%i };"),
+    ("struct ZS%i { struct { int a; } in; int b; };", "struct ZS%i { struct { int a; } in; int b; };"),
+    ("int zn%i = (xx)(1) + sizeof (xx);", "(xx)(1); sizeof (xx);"),
+    ("_Alignas(struct { char c; }) int zn%i;", "_Alignas(struct { char c; }) int zn%i;"),
+    ("int zn%i = sizeof (struct { int a; }){ 1 };", "if ((struct { int a; }){ 1 }.a) xx++;"),
+]
 
 
 def spell(k, n, i, variant):
@@ -69,6 +83,9 @@ def render(prog, shape, variant=None):
             out.append(t)
             closers.append("} while (xx);" if t.startswith("do") else "}")
             depth += 1
+        elif k == "noise":
+            j = i % len(NOISE) if variant is None else variant.randrange(len(NOISE))
+            out.append(NOISE[j][1 if depth > 0 else 0].replace("%i", str(i)))
         elif k == "enum2":
             out.append("enum { %s, EZ%d };" % (n, i))
         elif k == "enumS":
@@ -238,6 +255,8 @@ def run(tier):
         plans.append(("2 names, <=5 items, depth 2, all item kinds", ["T", "U"], 5, 2, ALL_KINDS, None))
         plans.append(("1 name, <=7 items, depth 3", ["T"], 7, 3,
                       {"typedef", "obj", "enum", "func", "func0", "funcN", "open", "forinit", "krfunc", "enum2"}, None))
+    plans.append(("1 name, <=7 items, depth 2, scope-neutral constructs between the declarations", ["T"], 7, 2,
+                  {"typedef", "obj", "func0", "open", "noise"}, 25000 if tier == "quick" else 200000))
     protocol_model(ctx, tier)
     traced = []
     for label, names, items, depth, kinds, sample in plans:
